@@ -457,6 +457,17 @@ def install(eng):
             raise UnknownCallee(call.norm, "opaque closure")
         return r
 
+    @on(r"^Option::unwrap_or_default$|^Result::unwrap_or_default$")
+    def _unwrap_or_default(call):
+        a = call.argv[0]
+        is_opt = call.norm.startswith("Option")
+        k = discr_choice(call, a, ("unwrap_or_default", call.fr.bb))
+        if k == (1 if is_opt else 0):
+            return eng.force(eng.field_cell(a, ("Some" if is_opt else "Ok", 0), None, "payload"))
+        d = Adt(call.ret_ty or "Default", None)
+        d.tag = ("default_value",)
+        return d
+
     @on(r"^Result::unwrap_or_else$|^Option::unwrap_or_else$")
     def _unwrap_or_else(call):
         a = call.argv[0]
@@ -488,6 +499,13 @@ def install(eng):
                 return mk_enum("Option", "None")
             return mk_enum("Result", other, eng.force(eng.field_cell(a, (other, 0), None, other)))
         payload = eng.force(eng.field_cell(a, (variant, 0), None, variant))
+        f_ = call.argv[1]
+        if isinstance(f_, FnItem) and re.search(r"ToString>::to_string$|ToString::to_string$", f_.name):
+            sv = Adt("String", None)
+            who = payload.cell.name if isinstance(payload, Ref) else "?"
+            sv.tag = ("to_string_of", who)
+            call.m.event("to_string", who)
+            return mk_enum(enum, variant, sv)
         r = call_closure(call, call.argv[1], [payload], post=("wrap", enum, variant))
         if r is None:
             raise UnknownCallee(call.norm, "opaque closure")
@@ -529,6 +547,70 @@ def install(eng):
         return v
 
     eng.vec_of = vec_of
+
+    @on(r"^<Vec as Index>::index$|^<\[slice\] as Index>::index$|^<Vec as IndexMut>::index_mut$")
+    def _vec_index(call):
+        v = vec_of(call, call.argv[0])
+        i = eng._concrete(call.argv[1]) if not isinstance(call.argv[1], Adt) else None
+        if i is None:
+            raise Unsupported("indexing with a symbolic index / range")
+        if v.base is not None:
+            # a Vec whose first `base` elements are unknown (arbitrary pre-state): element 0 is the first pushed element
+            # iff the prefix is empty, otherwise an element of the prefix
+            if i != 0:
+                raise Unsupported("indexing a Vec with unknown prefix beyond element 0")
+            k = eng.decide(call.m, ("vec_index_prefix", call.fr.bb), [v.base.e == 0, v.base.e != 0])
+            if k == 0:
+                if not v.items:
+                    call.m.event("panic", call.fr.fn.short, "index out of bounds")
+                    return Panic(f"{call.fr.fn.short}: index out of bounds")
+                return Ref(v.items[0])
+            pre = Opaque("?", "earlier_element_of_the_list")
+            return Ref(Cell(pre, None, "prefix[0]"))
+        if i >= len(v.items):
+            call.m.event("panic", call.fr.fn.short, "index out of bounds")
+            return Panic(f"{call.fr.fn.short}: index out of bounds")
+        return Ref(v.items[i])
+
+    @on(r"^Pin::get_mut$|^Pin::into_inner$|^Pin::get_ref$|^Pin::as_mut$")
+    def _pin_inner(call):
+        v = call.argv[0]
+        if isinstance(v, Ref) and call.norm.endswith("as_mut"):
+            v = v.cell.val
+        if isinstance(v, Adt) and v.ty == "Pin" and v.fields:
+            inner = next(iter(v.fields.values())).val
+            return v if call.norm.endswith("as_mut") else inner
+        return v
+
+    @on(r"^Pin::new$|^Pin::new_unchecked$")
+    def _pin_new(call):
+        a = Adt("Pin", None)
+        a.fields[(None, 0)] = Cell(call.argv[0], None, "pointer")
+        return a
+
+    @on(r"^<\[slice\]>::first$|slice::(.*::)?first$|^<\[slice\]>::last$|slice::(.*::)?last$")
+    def _slice_first_last(call):
+        v = vec_of(call, call.argv[0])
+        last = call.norm.endswith("last")
+        if last:
+            if v.items:
+                return mk_enum("Option", "Some", Ref(v.items[-1]))
+            if v.base is None:
+                return mk_enum("Option", "None")
+            raise Unsupported("last() of a Vec that is only an unknown prefix")
+        if v.base is not None:
+            k = eng.decide(call.m, ("slice_first_prefix", call.fr.bb), [v.base.e == 0, v.base.e != 0])
+            if k == 1:
+                return mk_enum("Option", "Some", Ref(Cell(Opaque("?", "earlier_element_of_the_list"), None, "prefix[0]")))
+        if v.items:
+            return mk_enum("Option", "Some", Ref(v.items[0]))
+        return mk_enum("Option", "None")
+
+    @on(r"^(Rc|Arc)::weak_count$")
+    def _weak_count(call):
+        w = eng.named("rc.weak_count", 64)
+        call.m.event("env", "weak_count")
+        return Int(w, 64, False)
 
     @on(r"^Vec::new$|^Vec::with_capacity$")
     def _vec_new(call):
